@@ -19,7 +19,8 @@ CLAIMED = {
         "this uses the neighbour-table involution of C15; hence the engine's Compute_dxdt is the rate law on every unflagged entry "
         "and one Euler step is x + dt*law; the import/export transpositions are mutually inverse; kinetics.py's grid path modelled branch by "
         "branch (unsplit reactions, six wrapped candidates, k = 2/(h^2(1/Di+1/Dj)), chemostat test last) returns the same law for every "
-        "table pairing forward and reverse halves, which the tables built from any system do. The model of engine.cpp / "
+        "table pairing forward and reverse halves, which the tables built from any system do; its graph path (each node joined by get_edge "
+        "counted once) returns it on every simple graph, and provably not with parallel edges. The model of engine.cpp / "
         "SimulationAlgorithm*Base.hpp / Euler*.hpp and of librdengine.py's table builders and unit conversions is tied to the code on "
         "every run: random systems (orders 0..4, empty sides, repeated species, per-environment constants with 'default' and zeros, "
         "grids with periodic axes of length 1 and 2, graphs with heterogeneous cubic volumes and per-node/edge units, random engine "
@@ -27,8 +28,8 @@ CLAIMED = {
         "make_dxdtf, and samples 0 and 1 of the Euler engine recompiled from the working tree; verdict in Coq with a tolerance "
         "relative to the magnitude of the summed terms.",
         "Trusted: Coq kernel + VM; the hand-written engine and table-builder models (tied by sampled correspondence: 220 systems quick, "
-        "4000 thorough); the Python kinetics functions' grid path is modelled over SI values (its unit-carrying "
-        "intermediate algebra is the object of C05/C04 theorems, not re-proved here), their graph path is tied to the law by correspondence only; cube roots are designed out (cell edges are "
+        "4000 thorough); the Python kinetics functions are modelled over SI values (their unit-carrying "
+        "intermediate algebra is the object of C05/C04 theorems, not re-proved here); cube roots are designed out (cell edges are "
         "generated, volumes are their exact cubes, consistency re-checked in Coq); binary64 vs exact rationals at 1e-9 x magnitude; "
         "g++ -O2 build of the engine; the Python harness.",
         "DESIGN.md section 6 / C01"),
